@@ -2,8 +2,10 @@
 Line-protocol driver for the node-recovery model (C07).
 
   reset
-  append <m> <t> | begin | write | commit          (WAL Put; the three steps of localReplicator.Replica)
-  apply                                             (= begin write commit: one Replica call)
+  append <m> <t> | begin | take | acquire | write | commit   (WAL Put; the steps of localReplicator.Replica / WriteRows)
+  apply                                             (= begin take acquire write commit: one Replica call)
+  wgc                                               (WAL garbage-collect tick on an expired family: writeAheadLog.destroy)
+  recoverp                                          (recover + rewind, answering positions and files only)
   mprep | mflushm | mflusht | iprep | iflush        (metadata / index dictionary flush steps)
   fmeta | findex                                    (= the whole FlushMeta / FlushIndex call)
   freeze | dcommit | ack                            (the three steps of dataFamily.Flush)
@@ -25,14 +27,15 @@ import LinVerif.Generated.C07
 namespace LinVerif.Driver.C07
 open LinVerif LinVerif.NodeRecovery
 
-def cfg : Cfg := ⟨LinVerif.Generated.C07.swapOnEmpty⟩
+def cfg : Cfg := ⟨LinVerif.Generated.C07.swapOnEmpty, LinVerif.Generated.C07.atomicAcquire⟩
 
 def showOpt : Option Int → String
   | some x => toString x
   | none => "-"
 
 def showPos (st : St) : String :=
-  s!"a={st.appended} c={st.consumed} k={st.groupAck} q={showOpt st.seq} s={showOpt st.stored}"
+  if st.walGone then s!"wal=gone q={showOpt st.seq} s={showOpt st.stored}"
+  else s!"a={st.appended} c={st.consumed} k={st.groupAck} q={showOpt st.seq} s={showOpt st.stored}"
 
 def sortNat (l : List Nat) : List Nat := (l.toArray.qsort (· < ·)).toList
 
@@ -89,6 +92,9 @@ def stepLine (st : St) (ws : List String) : St × String :=
     let st' := run cfg st [.indexPrepare, .indexFlush]
     (st', showPos st')
   | ["begin"] => ev st .applyBegin
+  | ["take"] => ev st .applyTake
+  | ["acquire"] => ev st .applyAcquire
+  | ["wgc"] => ev st .walExpire
   | ["write"] => ev st .applyWrite
   | ["commit"] => ev st .applyCommit
   | ["mprep"] => ev st .metaPrepare
@@ -107,6 +113,9 @@ def stepLine (st : St) (ws : List String) : St × String :=
   | ["recover"] =>
     let st' := step cfg (step cfg st .recover) .rewind
     (st', showPos st' ++ " " ++ showDurable st')
+  | ["recoverp"] =>    -- recovery of an image taken INSIDE a dictionary flush: positions and data files only
+    let st' := step cfg (step cfg st .recover) .rewind
+    (st', showPos st' ++ " files=" ++ showFiles st')
   | _ => (st, "bad-op")
 
 def main (_args : List String) : IO Unit := Proto.runLoop St.init stepLine
